@@ -294,7 +294,7 @@ func childC05(args []string) {
 					cancel()
 					continue
 				}
-				if !waitParked("sshd.process", "select", 30*time.Second) {
+				if !waitParked("sshd.process", "select|chan send", 30*time.Second) {
 					select {
 					case err := <-done:
 						out.violation(sig+":returned-without-blocking", fmt.Sprintf("returned %v although nobody receives the login", err), wit)
